@@ -31,7 +31,7 @@ THEOREMS = ['C02_balanced', 'C02_exit_only_active', 'C02_enter_only_inactive', '
 
 
 def gen(rng, i, tier):
-    c = hsm.gen_case(rng, max_depth=(4 if tier == 'thorough' and i % 3 == 0 else 3), p_parallel=(0.8 if i % 5 == 2 else 0.35), max_children=(4 if i % 5 == 2 else 3), p_enum=0.2, p_sep=0.15, p_queued=0.15, p_reuse=0.15,
+    c = hsm.gen_case(rng, max_depth=(4 if tier == 'thorough' and i % 3 == 0 else 3), p_parallel=(0.8 if i % 5 == 2 else 0.35), max_children=(4 if i % 5 == 2 else 3), p_enum=0.2, p_sep=0.15, p_queued=0.15, p_reuse=0.15, p_build=0.3,
                      p_subset=(0.7 if i % 10 == 7 else 0.0))
     if i % 5 == 2:
         # two regions of an active parallel state declare the event, the first one's transition moves the other region
